@@ -46,6 +46,7 @@ inductive Stmt
   | whiles (c : Cond) (b : Stmts)                    -- `while (c) { b }`
   | dowhile (b : Stmts) (c : List U)                 -- `do { b } while (c);`
   | fors (i : ForInit) (c : List U) (s : List U) (b : Stmts)   -- `for (i; c; s) { b }`
+  | enumd (x : VName) (init : List U)                -- `enum { x = e };` at block scope
 inductive Stmts
   | nil
   | cons (s : Stmt) (r : Stmts)
@@ -55,6 +56,7 @@ inductive Top
   | gdecl (x : VName) (init : List U)                -- file-scope variable
   | func (ps : List VName) (body : Stmts)            -- function definition
   | proto (ps : List VName)                          -- function declaration with named parameters
+  | genum (x : VName) (init : List U)                -- `enum { x = e };` at file scope
 abbrev Prog := List Top
 
 /-! ## the model of setVarIdPass1 on the fragment -/
@@ -79,6 +81,11 @@ def forInitOps : ForInit → List Op
   | .expr us => useOps us
   | .decl x init => declOps x false init
 
+/-- `enum { x = e };` : the "{" of an enum is an ordinary scope for the VariableMap (enterScope / leaveScope, nothing is
+ever added to it); the enumerator token is skipped by the `scopeStack.top().isEnum` test (varid 0); the tokens of `e` are
+looked up as usual.  After the enum the name `x` is in scope as an enumerator — an event the VariableMap does not see. -/
+def enumOps (x : VName) (init : List U) : List Op := .enter :: .skip :: useOps init ++ [.leave, .hide x]
+
 mutual
 def implStmt : Stmt → List Op
   | .decl x init => declOps x false init
@@ -97,6 +104,7 @@ def implStmt : Stmt → List Op
   -- "do {" is an ordinary block; "while ( c ) ;" : tokenLinkNext is ";" => no scope
   | .dowhile b c => .enter :: implStmts b ++ .leave :: useOps c
   | .fors i c s b => .enter :: forInitOps i ++ useOps c ++ useOps s ++ implStmts b ++ [.leave]
+  | .enumd x init => enumOps x init
 def implStmts : Stmts → List Op
   | .nil => []
   | .cons s r => implStmt s ++ implStmts r
@@ -113,6 +121,7 @@ def implTop : Top → List Op
   | .gdecl x init => declOps x true init
   | .func ps body => .enter :: paramOps ps ++ implStmts body ++ [.leave]
   | .proto ps => .enter :: paramOps ps ++ [.leave]
+  | .genum x init => enumOps x init
 
 def implProg : Prog → List Op
   | [] => []
@@ -183,6 +192,9 @@ def specStmt (env glob : AMap) (n : VId) : Stmt → SRes
     let env1 := ri.decls ++ env
     let rb := specStmts env1 glob ri.next b
     ⟨ri.out ++ useIds env1 glob c ++ useIds env1 glob s ++ rb.out, [], rb.next⟩
+  -- an enumerator: not a variable (its token and every later use of the name carry id 0), visible in the enclosing
+  -- scope from the end of its definition on (C11 6.2.1p7), hiding any outer declaration of the name
+  | .enumd x init => ⟨0 :: useIds env glob init, [(x, 0)], n⟩
 def specStmts (env glob : AMap) (n : VId) : Stmts → SRes
   | .nil => ⟨[], [], n⟩
   | .cons s r =>
@@ -206,6 +218,7 @@ def specTop (glob : AMap) (n : VId) : Top → SRes
     let rb := specStmts rp.decls glob rp.next body
     ⟨rp.out ++ rb.out, [], rb.next⟩
   | .proto ps => let rp := specParams n ps; ⟨rp.out, [], rp.next⟩
+  | .genum x init => ⟨0 :: useIds [] glob init, [(x, 0)], n⟩
 
 def specTops (glob : AMap) (n : VId) : Prog → List VId
   | [] => []
@@ -241,6 +254,7 @@ def stmtOK (fs : List VName) : Stmt → Bool
   | .whiles c b => condOK fs c && stmtsOK fs b
   | .dowhile b c => stmtsOK fs b && usOK fs c
   | .fors i c s b => forInitOK fs i && usOK fs c && usOK fs s && stmtsOK fs b
+  | .enumd _ init => usOK fs init
 def stmtsOK (fs : List VName) : Stmts → Bool
   | .nil => true
   | .cons s r => stmtOK fs s && stmtsOK fs r
@@ -252,6 +266,10 @@ def progOK : List VName → Prog → Bool
   | fs, .gdecl x init :: r => usOK (x :: fs) init && progOK (x :: fs) r
   | fs, .func _ body :: r => stmtsOK fs body && progOK fs r
   | fs, .proto _ :: r => progOK fs r
+  | fs, .genum _ init :: r => usOK fs init && progOK fs r
+
+/-- hypothesis of `resolve_eq_spec_partial`: no enumerator of the program hides a visible variable -/
+def noEnumHidesVar (p : Prog) : Bool := noVarHidden Spec.init (implProg p)
 
 /-- number of declarations (for `ids_distinct`) -/
 def countDecls : List Op → Nat
